@@ -387,6 +387,24 @@ partial def blk (j : Json) : Except String Blk := do
                            prefix_ := (o.getObjValAs? String "prefix").toOption.map String.toList,
                            skipUnauth := (o.getObjValAs? Bool "skip").toOption.getD false }
     return .in_ (← src a[1]!) opts (← blks a[3]!) (← optBlks a[4]!)
+  | "inx" =>
+    let o := a[2]!
+    let opts : InOpts := { mapping := (o.getObjValAs? Bool "mapping").toOption.getD false,
+                           noPush := (o.getObjValAs? Bool "noPush").toOption.getD false,
+                           prefix_ := (o.getObjValAs? String "prefix").toOption.map String.toList,
+                           skipUnauth := (o.getObjValAs? Bool "skip").toOption.getD false }
+    let x := a[3]!
+    let gi (b : Json) (k : String) : Int := (b.getObjValAs? Int k).toOption.getD 0
+    let batch : Option BatchP := match x.getObjVal? "batch" with
+      | .ok (.obj kv) =>
+        let b := Json.obj kv
+        some { start := gi b "start", end_ := gi b "end", size := gi b "size", orphan := gi b "orphan",
+               overlap := gi b "overlap", previous := (b.getObjValAs? Bool "previous").toOption.getD false,
+               next := (b.getObjValAs? Bool "next").toOption.getD false }
+      | _ => none
+    let xo : InXOpts := { sortKey := (x.getObjValAs? String "sort").toOption.map String.toList,
+                          reverse := (x.getObjValAs? Bool "reverse").toOption.getD false, batch := batch }
+    return .inx_ (← src a[1]!) opts xo (← blks a[4]!) (← optBlks a[5]!)
   | "with" => return .with_ (← src a[1]!) (← a[2]!.getBool?) (← a[3]!.getBool?) (← blks a[4]!)
   | "let" =>
     let bs ← (← a[1]!.getArr?).toList.mapM fun b => do
